@@ -240,6 +240,17 @@ func (propC16) Run(scI interface{}) (o *Outcome) {
 		// a source that starts with a UTF-8 byte-order mark (literal text like any other)
 		srcs[mainName] = "\xef\xbb\xbf" + srcs[mainName]
 	}
+	if sc.WorldSeed%7 == 3 && !strings.Contains(sc.NamePrefix, "\u00e9") {
+		// sources in a legacy single-byte encoding (not valid UTF-8): template text is bytes, not characters
+		// (template NAMES stay valid: an extends/import tag naming '\xe9/x' panics in the tokenizer, DESIGN §8)
+		for n, s := range srcs {
+			if strings.Contains(s, "\u00e9") {
+				srcs[n] = strings.ReplaceAll(s, "\u00e9", "\xe9")
+				o.Probes["source_not_utf8"]++
+			}
+		}
+		srcs[twinBase] = "caf\xe9 " + srcs[twinBase]
+	}
 	hubA := &spyHub{per: []*Spies{newSpies()}}
 	A := twig.New()
 	installSpies(A, hubA)
